@@ -88,3 +88,11 @@ Print Assumptions crossover_p1_recombines_memberwise.
 
 Example flip_is_accepted : mut_check fone fone (SBool true) [] [] (VBool true) (VBool false) = Some [].
 Proof. vm_compute. reflexivity. Qed.
+
+(** ** adaptation.  The battery's badly scaled and far-away problems are solved only because the
+    mutation scale adapts: [meta_adapt::mutate] rescales every field from its own previous value
+    (shape regenerated from the source; the real function is compared with [MetaAdapt.meta_mutate]
+    by the meta stream) *)
+Example adaptation_shape :
+  rescale_is_clamped_product = true /\ meta_mutate_rescales_each_field = true /\ exploratory_is_mutated_base = true.
+Proof. repeat split; reflexivity. Qed.
